@@ -1399,7 +1399,7 @@ func (sys *system) discoverNodes() error {
 	infos := make(map[idset.ID]*MemInfo)
 	dramAvg := uint64(0)
 	if len(pmemOrHbmNodeIds) > 0 && len(dramNodeIds) > 0 {
-		dramCnt := uint64(len(dramNodeIds) - noMemNodes.Size())
+		dramCnt := uint64(len(dramNodeIds) - noMemNodes.Intersection(dramNodes).Size())
 		if dramCnt == 0 {
 			return fmt.Errorf("no dram nodes in the system, cannot determine memory types")
 		}
@@ -1442,6 +1442,9 @@ func (sys *system) discoverNodes() error {
 			}
 		} else if _, ok := dramNodeIds[node.id]; ok {
 			sys.Logger.Info("node %d has DRAM memory", node.id)
+			node.memoryType = MemoryTypeDRAM
+		} else if !memoryNodes.Contains(int(node.id)) {
+			// neither (online) CPUs nor memory: nothing to classify
 			node.memoryType = MemoryTypeDRAM
 		} else {
 			return fmt.Errorf("Unknown memory type for node %v (pmem nodes: %s, dram nodes: %s)", node, pmemOrHbmNodes, dramNodes)
